@@ -59,6 +59,10 @@ func (p *prog) fork() *prog {
 	q.vars = append(q.vars, p.vars...)
 	q.vdt = append(q.vdt, p.vdt...)
 	q.inputs = append(q.inputs, p.inputs...)
+	q.fmtSeen = map[string]string{}
+	for k, v := range p.fmtSeen {
+		q.fmtSeen[k] = v
+	}
 	return q
 }
 
